@@ -9,4 +9,6 @@ git -C /verif worktree add --detach "$d/verif" HEAD >/dev/null 2>&1
 git -C /repo worktree add --detach "$d/repo" HEAD >/dev/null 2>&1
 mkdir -p "$d/cache"
 cp -a /verif/.cache/target "$d/cache/target"
+# carry the compiled Coq files over (same sources, original mtimes), so that the first make in the workspace is incremental
+rsync -a /verif/coq/ "$d/verif/coq/" 2>/dev/null || true
 echo "export VERIF_REPO=$d/repo VERIF_CACHE=$d/cache; cd $d/verif"
